@@ -140,6 +140,17 @@ func canonBin(t *Term) *Term {
 	if c := canonIndShift(t); c != nil {
 		return c
 	}
+	// an ascending counter over multiples of c divided by c is the counter of the quotients: ind<+s>(a)/c = ind<+s/c>(a/c)
+	if t.Name == "/" && l.Op == "ind" && len(l.Args) == 1 {
+		if cv, ok := isConstInt(r); ok && cv.Sign() > 0 {
+			if step, ok := parseStep(l.Name); ok && step.Sign() > 0 && new(big.Int).Mod(step, cv).Sign() == 0 {
+				if a, ok := isConstInt(l.Args[0]); ok && a.Sign() >= 0 && new(big.Int).Mod(a, cv).Sign() == 0 {
+					ns := new(big.Int).Quo(step, cv)
+					return &Term{Op: "ind", Name: "+" + ns.String(), V: t.V, Args: []*Term{mkConst(new(big.Int).Quo(a, cv), l.Args[0].V)}}
+				}
+			}
+		}
+	}
 	// (y * a) / b with a | b  →  y / (b/a)   (lengths and sizes: no overflow)
 	if t.Name == "/" && l.Op == "bin" && l.Name == "*" {
 		if bv, ok := isConstInt(r); ok && bv.Sign() > 0 {
